@@ -230,6 +230,10 @@ def make_instance(rng, depth):
     for _ in range(rng.choice([2, 3])):
         a, b = rng.choice(scal), rng.choice(scal)
         MX.append({"o": rng.randrange(len(O)) + 1, "an": a[0], "ad": a[1], "bn": b[0], "bd": b[1]})
+    if rng.random() < 0.6:        # an unscaled left (and sometimes right) operand: a | b*w, a | b
+        MX[0]["an"], MX[0]["ad"] = 1, 1
+        if rng.random() < 0.4:
+            MX[0]["bn"], MX[0]["bd"] = 1, 1
     C = rng.sample([-2000, -3, 1, 7, 2000, 40], 2)
     return {"NA": NA, "MAXN": MAXN, "DEPTH": depth, "init": init, "O": O, "F": Ftab, "K": K, "L": L,
             "G": G, "MX": MX, "C": C}
@@ -460,6 +464,35 @@ def build(rec, labels, variant):
                               table_index=TableIndex(field_names=("row", "event"),
                                                      field_domains=(("r0", "r1", "r2"), tuple(evs))))
         return pt["r1"]
+    if variant == "ptsel":
+        # a ProbabilityTable row restricted to a list of its columns, listed in an order that differs from
+        # the table's own column order (the table also has a column that is not selected)
+        cols = list(reversed(evs)) + ["~unselected column~"]
+        if len(evs) >= 3:
+            cols = [evs[1], "~unselected column~", evs[0]] + list(reversed(evs[2:]))
+        val = dict(zip(evs, ps))
+        rows = [[val.get(c, 0.125) for c in cols], [0.0625] * len(cols)]
+        pt = ProbabilityTable(data=np.array(rows, dtype=float),
+                              table_index=TableIndex(field_names=("row", "event"), field_domains=(("r0", "r1"), tuple(cols))))
+        return pt["r0", list(evs)]
+    if variant == "dict_kw":
+        return DictDistribution(**dict(zip(evs, ps)))
+    if variant == "uniform_range":
+        lo, step = min(evs), (sorted(evs)[1] - sorted(evs)[0] if len(evs) > 1 else 1)
+        return UniformDistribution(range(lo, max(evs) + 1, step))
+    if variant == "uniform_range_cls":
+        lo, step = min(evs), (sorted(evs)[1] - sorted(evs)[0] if len(evs) > 1 else 1)
+        return DictDistribution.uniform(range(lo, max(evs) + 1, step))
+    if variant == "uniform_str":
+        return UniformDistribution("".join(evs))
+    if variant == "softmax_kw":
+        return SoftmaxDistribution(**dict(zip(evs, real_scores(rec, rec["k"]))))
+    if variant == "softmax_part":
+        sc = dict(zip(evs, real_scores(rec, rec["k"])))
+        return SoftmaxDistribution({e: x for e, x in sc.items() if not isinstance(e, str)},
+                                   **{e: x for e, x in sc.items() if isinstance(e, str)})
+    if variant == "softmax_pairs":
+        return SoftmaxDistribution(list(zip(evs, real_scores(rec, rec["k"]))))
     if variant == "uniform_list":
         return UniformDistribution(list(evs))
     if variant == "uniform_tuple":
@@ -492,25 +525,47 @@ def raw_object(prefix):
     """True while the object at this chain prefix is still the initial object (only observations /
     softmax re-constructions so far); after any other operation it is an ordinary DictDistribution."""
     return all(o in ("shift", "expect") for o, _ in prefix)
-CLASS_OF = {"dict": "DictDistribution", "pairs": "DictDistribution.from_pairs", "table": "TableDistribution",
+CLASS_OF = {"ptsel": "ProbabilityTable-row[column list]", "dict_kw": "DictDistribution(**kw)",
+            "uniform_range": "UniformDistribution[range]", "uniform_range_cls": "UniformDistribution[range]",
+            "uniform_str": "UniformDistribution[str]", "softmax_kw": "SoftmaxDistribution(**kw)",
+            "softmax_part": "SoftmaxDistribution(mapping, **kw)", "softmax_pairs": "SoftmaxDistribution(pairs)",
+            "dict": "DictDistribution", "pairs": "DictDistribution.from_pairs", "table": "TableDistribution",
             "ptrow": "ProbabilityTable-row", "uniform_list": "UniformDistribution", "uniform_tuple": "UniformDistribution",
             "uniform_cls": "UniformDistribution", "uniform_set": "UniformDistribution[set]",
             "uniform_keys": "UniformDistribution[keys]", "det": "DeterministicDistribution",
             "det_cls": "DeterministicDistribution", "softmax": "SoftmaxDistribution"}
 
 
-def variants_for(rec):
-    """Every concrete kind that denotes the measure of the record (first = the record's own kind)."""
+def variants_for(rec, labels=None):
+    """Every concrete kind that denotes the measure of the record (first = the record's own kind).
+    With `labels`: also the ways of writing it down that depend on the event labels (keyword arguments for
+    str events, a range for integer events in arithmetic progression, a str for one-character events)."""
     D = o_distof(rec)
     ps = list(D.values())
+    evs = [conc(e, labels) for e in D] if labels is not None else None
     own = {"dict": "dict", "table": "table", "uniform": "uniform_list", "det": "det", "softmax": "softmax",
            "pairs": "pairs"}[rec["kind"]]
     vs = [own]
-    for v in ("dict", "table", "ptrow", "pairs"):
+    for v in ("dict", "table", "ptrow", "pairs", "ptsel"):
         if v not in vs and (v != "pairs" or rec["kind"] != "softmax"):
             vs.append(v)
+    all_str = evs is not None and all(isinstance(e, str) for e in evs)
+    if all_str:
+        vs.append("dict_kw")
+    if rec["kind"] == "softmax" and evs is not None:
+        vs.append("softmax_pairs")
+        if all_str:
+            vs.append("softmax_kw")
+        elif any(isinstance(e, str) for e in evs):
+            vs.append("softmax_part")
     if len(set(ps)) == 1 and ps[0] == F(1, len(ps)):
         vs += [v for v in ("uniform_list", "uniform_tuple", "uniform_cls", "uniform_set", "uniform_keys") if v not in vs]
+        if evs is not None and all(type(e) is int for e in evs):
+            srt = sorted(evs)
+            if len(srt) == 1 or (len({b - a for a, b in zip(srt, srt[1:])}) == 1 and srt[1] > srt[0]):
+                vs += ["uniform_range", "uniform_range_cls"]
+        if evs is not None and all(isinstance(e, str) and len(e) == 1 for e in evs):
+            vs.append("uniform_str")
     if len(ps) == 1 and ps[0] == 1:
         vs += [v for v in ("det", "det_cls") if v not in vs]
     return vs
@@ -564,9 +619,11 @@ def real_step(case, obj, pre, op, j, salt, scores):
         other = build(inst["O"][mx["o"] - 1], labels, operand_variant(inst["O"][mx["o"] - 1], salt))
         a = mx["an"] if mx["ad"] == 1 else mx["an"] / mx["ad"]      # ints stay ints
         b = mx["bn"] if mx["bd"] == 1 else mx["bn"] / mx["bd"]
+        left = obj if (mx["an"], mx["ad"]) == (1, 1) else None       # weight 1: the object itself is the operand
+        right = other if (mx["bn"], mx["bd"]) == (1, 1) and salt % 3 == 0 else None
         if salt % 2:
-            return (a * obj) | (other * b)                          # __rmul__ on the left operand
-        return (obj * a) | (b * other)
+            return (left if left is not None else a * obj) | (right if right is not None else other * b)   # __rmul__
+        return (left if left is not None else obj * a) | (right if right is not None else b * other)
     if op == "norm":
         return obj.normalize()
     if op == "expect":
@@ -771,7 +828,11 @@ def replay_case(ctx, i, c, chains, traces, ndraws, corrupt, corrupt_init=None):
     case_ok = True
     nodes = {}            # (variant, prefix) -> (obj | None, expected measure, scores)
     rngsalt = int(digest(c.json()), 16)
-    variants = variants_for(inst["init"])
+    variants = variants_for(inst["init"], c.labels)
+    # the label dependent spellings right after the record's own kind, so that chains go on with them
+    own_variant = variants[0]
+    variants = sorted(variants, key=lambda v: 0 if v == own_variant else (
+        1 if v in ("softmax_kw", "softmax_part", "uniform_range", "uniform_str") else 2))
     ops_seen = set()
 
     def report(variant, prefix, op, operand, clause, text, pre, j=0):
@@ -864,8 +925,18 @@ def replay_case(ctx, i, c, chains, traces, ndraws, corrupt, corrupt_init=None):
                     o = inst["O"][inst["MX"][j - 1]["o"] - 1]
                     operand = f"({CLASS_OF[operand_variant(o, salt)]})"
                 try:
+                    snap = list(pobj.items())
                     out = real_step(c, pobj, pre, op, jj, salt, sc2)
                     ctx.evaluations += 1
+                    after = list(pobj.items())
+                    if after != snap:
+                        # operations are functions of their operands (the branching of the model: every successor
+                        # of a state is computed from the same measure): the receiver must still denote `pre`
+                        report(v, chain[:k - 1], op, operand, "operand-mutated",
+                               f"the receiver changed from {snap} to {after}", pre, j)
+                        nodes[(v, chain[:k - 1])] = (None, pre, scores)
+                        nodes[(v, prefix)] = (None, exp, sc2)
+                        continue
                 except Exception as e:                  # noqa: BLE001
                     report(v, chain[:k - 1], op, operand, "error", f"raised {type(e).__name__}: {e}", pre, j)
                     nodes[(v, prefix)] = (None, exp, sc2)
@@ -1243,13 +1314,29 @@ def make_cases(rng, n, depth, ctx=None):
                 if len(inst["init"]["ev"]) == 1:
                     inst["init"] = rand_rec(rng, kind="softmax", size=rng.choice([2, 3, 3]))
                 softmax_corner(rng, inst["init"], style)
+        pool = pools[len(cases) % len(pools)]
+        perm = rng.sample(range(len(POOLS[pool])), NA)
+        turn = (len(cases) // len(KINDS)) % 2
+        if inst["init"]["kind"] == "uniform":
+            # uniform supports written as a range (integer events in arithmetic progression) or as a str of
+            # one-character events: sequences, like lists and tuples
+            if turn == 0:
+                size = len(inst["init"]["ev"])
+                start = rng.randint(1, NA - size + 1)
+                atoms = rng.sample(range(1, NA + 1), 2) if size == 2 else rng.sample(range(start, start + size), size)
+                inst["init"]["ev"] = [[a] for a in atoms]
+                pool, perm = "int", [0, 1, 2, 3]
+            else:
+                pool = "str"
+                perm = rng.sample(range(len(POOLS[pool])), NA)
+        elif inst["init"]["kind"] == "softmax" and len(cases) % len(KINDS) == 5 and turn == 0:
+            pool = "str"                      # scores can then be given as keyword arguments
+            perm = rng.sample(range(len(POOLS[pool])), NA)
         _, mag = o_tree(inst)
         if mag >= MAGLIM:
             if ctx is not None:
                 ctx.skip("instance beyond the 32-bit magnitude bound of the exact arithmetic")
             continue
-        pool = pools[len(cases) % len(pools)]
-        perm = rng.sample(range(len(POOLS[pool])), NA)
         cases.append(Case(inst, pool, perm))
     return cases
 
